@@ -1,4 +1,5 @@
 #!/bin/bash
+export VERIF_EVIDENCE_DIR=/verif/.scratch/seed-evidence   # never overwrite evidence/ with a run on a modified tree
 # runs, for every seeded change, the quick check of the property it was written for; prints one line per seed
 cd /verif
 for d in seeded/*/; do
